@@ -4,7 +4,9 @@ SPEC = dict(
     level_text='Mixed. PROVED deductively (every string, incl. bodies with colons or brackets, every letter case of the prefix): the five '
                'prefix-stripping functions of the resolver (_strip_unimod_str, _strip_psi_str, _strip_xlmod_str, _strip_resid_str, '
                '_strip_gno_str) return exactly the body after the documented prefix and return an unprefixed string unchanged, and '
-               'is_xlmod_str is the prefix test -- string VCs generated from the real AST (split through index-of, lower() under A-ASCII), '
+               'is_xlmod_str is the prefix test; mod_mass multiplies the mass of a Mod object\'s value by its multiplier, lets numbers pass '
+               'through, and for \'|\'-separated alternatives returns the FIRST resolvable one, raising only when none resolves (loop invariant '
+               'over the alternatives) -- string VCs generated from the real AST (split through index-of, lower() under A-ASCII), '
                'discharged by z3 / cvc5. These obligations refuted the pinned tree (a body containing a colon), replayed, and were repaired '
                '(fix recorded). EXHAUSTIVE over the finite tables (bounded tier; every entry in thorough, every 5th + all special names in '
                'quick): each of the 1522 Unimod, 1978 PSI-MOD and 1101 XLMOD entries resolves to the same mono / average mass and composition '
@@ -13,7 +15,8 @@ SPEC = dict(
     level_note='A-ASCII for lower(). _get_mass/_get_comp lookup order and the resolver chains (mass_calc._parse_mod_mass, chem_calc._parse_mod_comp) '
                'are exercised by the table tier, not under contract.',
     design_ref='DESIGN.md section 6, C10',
-    contracts=['moddb'],
+    contracts=['moddb', 'modmass'],
+    targets={'modmass': ['peptacular.mass_calc:mod_mass@mod', 'peptacular.mass_calc:mod_mass@int', 'peptacular.mass_calc:mod_mass@float', 'peptacular.mass_calc:mod_mass@str']},
     bounded=[dict(name='C10-tables', script='bounded/C10.py')],
     replay_finder='bounded/C10.py',
     explanation='string obligations for the spelling rules (all discharged) + exhaustive table enumeration',
